@@ -3,6 +3,7 @@ package main
 import (
 	"fmt"
 	"go/ast"
+	"go/constant"
 	"go/token"
 	"go/types"
 	"sort"
@@ -23,6 +24,8 @@ type FlowGraph struct {
 	preds  [][]int
 	rpoNum []int
 	links  map[types.Object]boolLink // flag := x == nil / x != nil (both assigned once)
+	// scenario oracle of the running query (PathQuery.Atom): the value of an atomic condition, '1', '0' or '?'
+	atom func(e ast.Expr) byte
 }
 
 type boolLink struct {
@@ -354,11 +357,32 @@ type PathQuery struct {
 	Correlate bool
 	// Gen (with Correlate) lets a rule add facts it can derive at a block node (p := fresh.Get(id) ⇒ p == nil).
 	Gen func(n ast.Node, facts map[identFact]bool) map[identFact]bool
+	// Atom (with Correlate) makes the search a scenario evaluation: the rule fixes the value of some atomic
+	// conditions (a field, a call compared with a constant, `tag == case` of a switch) and every branch
+	// condition is evaluated under them in Kleene logic; only edges that are feasible in the scenario are
+	// followed. An atom the rule leaves '?' keeps both edges.
+	Atom func(e ast.Expr) byte
+	// Facts: identifier facts that hold at the start of the search (for a search from the entry).
+	Facts map[identFact]bool
+	// Visit is called at every node the search passes, with the facts known there.
+	Visit func(l Loc, facts map[identFact]bool)
 }
 
 type identFact struct {
 	obj   types.Object
-	isNil bool // fact is about obj == nil rather than obj itself
+	isNil bool // fact is about obj being the zero value (obj == nil, obj == "") rather than obj itself
+}
+
+// isZeroLit: the nil literal or the constant "".
+func isZeroLit(info *types.Info, e ast.Expr) bool {
+	tv, ok := info.Types[e]
+	if !ok {
+		return false
+	}
+	if tv.IsNil() {
+		return true
+	}
+	return tv.Value != nil && tv.Value.Kind() == constant.String && constant.StringVal(tv.Value) == ""
 }
 
 // identFacts extracts facts about identifiers from edge facts.
@@ -418,6 +442,11 @@ func (fg *FlowGraph) eval3(e ast.Expr, facts map[identFact]bool) byte {
 	if c := boolConst(fg.Info, e); c == '1' || c == '0' {
 		return c
 	}
+	if fg.atom != nil {
+		if v := fg.atom(e); v == '1' || v == '0' {
+			return v
+		}
+	}
 	switch x := e.(type) {
 	case *ast.Ident:
 		if o := fg.Info.ObjectOf(x); o != nil {
@@ -461,7 +490,7 @@ func (fg *FlowGraph) eval3(e ast.Expr, facts map[identFact]bool) byte {
 				if !ok {
 					continue
 				}
-				if tv, ok := fg.Info.Types[side[1]]; ok && tv.IsNil() {
+				if isZeroLit(fg.Info, side[1]) {
 					if o := fg.Info.ObjectOf(id); o != nil {
 						if isNil, ok := facts[identFact{o, true}]; ok {
 							if isNil == (x.Op == token.EQL) {
@@ -587,6 +616,14 @@ func (fg *FlowGraph) killed(n ast.Node, facts map[identFact]bool) map[identFact]
 func (fg *FlowGraph) Reach(q PathQuery) (bool, []ast.Node) {
 	startB, startI := fg.G.Blocks[0], 0
 	facts := map[identFact]bool{}
+	for k, v := range q.Facts {
+		facts[k] = v
+	}
+	if q.Atom != nil {
+		old := fg.atom
+		fg.atom = q.Atom
+		defer func() { fg.atom = old }()
+	}
 	if q.From.Valid() {
 		startB, startI = q.From.Block, q.From.Idx+1
 		if q.Correlate {
@@ -618,6 +655,9 @@ func (fg *FlowGraph) Reach(q PathQuery) (bool, []ast.Node) {
 	walk = func(b *cfg.Block, start int, facts map[identFact]bool) bool {
 		for i := start; i < len(b.Nodes); i++ {
 			l := Loc{b, i, b.Nodes[i]}
+			if q.Visit != nil {
+				q.Visit(l, facts)
+			}
 			if q.Avoid != nil && q.Avoid(l) {
 				return false
 			}
@@ -641,8 +681,17 @@ func (fg *FlowGraph) Reach(q PathQuery) (bool, []ast.Node) {
 			if q.Correlate && len(b.Succs) == 2 {
 				// the whole condition evaluated under what is known (Kleene logic): a condition known
 				// true has no false edge and vice versa
-				if cond, tag := fg.condOf(b); cond != nil && tag == nil {
-					switch fg.eval3(cond, facts) {
+				if cond, tag := fg.condOf(b); cond != nil {
+					full := cond
+					if tag != nil {
+						// a case of a tagged switch is the condition tag == case
+						full = &ast.BinaryExpr{X: tag, Op: token.EQL, Y: cond}
+					}
+					v := byte('?')
+					if tag == nil || q.Atom != nil {
+						v = fg.eval3(full, facts)
+					}
+					switch v {
 					case '1':
 						if si == 1 {
 							continue
